@@ -22,7 +22,7 @@ EXPLANATION = (
 ASSUMPTIONS = ["std::atomic<thread_state>::compare_exchange_strong is atomic", "work_items_/new_tasks_/terminated_items_ deliver each pushed element to one pop (C17)",
                "on_start_thread runs on the owning worker before the pool's start-up barrier releases any work (reserve() calls exempt from R6)"]
 THOROUGH_CONFIGS = [["-UNDEBUG", "-DPIKA_DEBUG"], ["-DPIKA_HAVE_THREAD_QUEUE_WAITTIME"]]
-FLOORS = {"C01.R1": 8, "C01.R2": 6, "C01.R3": 8, "C01.R4": 24, "C01.R5": 12, "C01.R6": 10, "C01.R7": 9, "C01.R8": 2, "C01.R9": 1, "C01.R10": 6}
+FLOORS = {"C01.R1": 8, "C01.R2": 6, "C01.R3": 8, "C01.R4": 24, "C01.R5": 12, "C01.R6": 10, "C01.R7": 9, "C01.R8": 2, "C01.R9": 1, "C01.R10": 6, "C01.R11": 4}
 
 TSS = "pika::threads::detail::thread_schedule_state"
 TD = "pika::threads::detail::thread_data"
@@ -383,3 +383,65 @@ def run(rep, tier):
                  "K7/K3 (shared with C02.R3/R4): set_thread_state on an 'active' target schedules the set_active_state helper or retries; "
                  "the helper aborts only when the tag changed - otherwise a resumed task is never queued again (its body never completes)")
 
+
+    # ---- R11: a task popped from a queue is handed to the caller at once
+    rep.rule("C01.R11", "K4/K7: scheduler get_next_thread: after a successful pop into thrd no further pop is attempted and the function returns true; it returns true only after a successful pop (a popped task is neither overwritten nor dropped)")
+    SG = facts(rep, lib("thread_pools", "src/scheduled_thread_pool.cpp"),
+               [r"::(local_priority_queue_scheduler|local_queue_scheduler|static_queue_scheduler|static_priority_queue_scheduler)::get_next_thread$"])
+    gnt = [f for f in SG.fns if not f.pattern and f.parent == -1]
+    if len(gnt) < 3:
+        raise AnalysisBroken("scheduler get_next_thread instantiations not found")
+    for f in gnt:
+        ff = FactFlow(f, eh=False)
+        is_pop = lambda e: e.get("k") == "call" and callee_short(e) == "get_next_thread" and e.get("recv") is not None and P(e["recv"]) != "this" and \
+            e.get("args") and P(e["args"][0]) == "thrd"
+        pops = [(b, i, e) for b, i, e in f.all_events() if is_pop(e)]
+        if not pops:
+            raise AnalysisBroken("%s: no per-queue pop found" % f.full)
+        popvars = set()
+        for b, i, e in f.all_events():
+            if e.get("k") == "decl" and e.get("init") is not None and is_pop(strip(e["init"])):
+                popvars.add(e.get("var"))
+
+        from engine.core import forward
+        NO, MAYBE, YES = "no", "maybe", "yes"
+        bad = []
+        nret = [0]
+
+        def tr(st, e, pos):
+            if is_pop(e):
+                if st != NO:
+                    bad.append(("second-pop", loc_of(e), st))
+                return MAYBE
+            if e.get("k") == "return" and e.get("e") is not None:
+                nret[0] += 1
+                v = strip(e["e"])
+                if isinstance(v, dict) and v.get("k") == "lit":
+                    if v.get("v") is True and st != YES:
+                        bad.append(("true-without-pop", loc_of(e), st))
+                    if v.get("v") is False and st != NO:
+                        bad.append(("popped-task-dropped", loc_of(e), st))
+                elif not (isinstance(v, dict) and is_pop(v)) and not (isinstance(v, dict) and v.get("k") == "var" and v.get("name") in popvars):
+                    bad.append(("opaque-return", loc_of(e), T(v)))
+            return st
+
+        def edge(st, blk, lab, cond):
+            if cond is None or lab not in ("true", "false") or st != MAYBE:
+                return st
+            a_, pol = cond_atoms(cond)
+            if "get_next_thread(thrd" in a_ or a_ in popvars:
+                val = (lab == "true") == pol
+                return YES if val else NO
+            return st
+        forward(f, NO, tr, edge, lambda x, y: x if x == y else MAYBE, eh=False)
+        bad = sorted(set(bad))
+        nret = nret[0]
+        if bad:
+            for kind, loc, what in bad[:3]:
+                rep.bad("C01.R11", f, loc, "%s:%s" % (kind, f.qname.rsplit("::", 2)[-2]), {
+                    "second-pop": "another queue is popped into thrd although an earlier pop may have succeeded (state: %s): the first task is overwritten and never runs" % what,
+                    "true-without-pop": "returns true on a path without a successful pop: the worker runs a stale / empty thread reference",
+                    "popped-task-dropped": "returns false although a pop may have succeeded (state: %s): the popped task is dropped" % what,
+                    "opaque-return": "returns %s, which is not the outcome of a pop" % what}[kind])
+        else:
+            rep.ok("C01.R11", f, "%d pops, %d returns: success is returned at once, false only without a popped task" % (len(pops), nret), sites=len(pops) + nret)
